@@ -70,6 +70,21 @@ def gen_case(rng, tier):
             at = rng.randint(0, len(stmts))
             stmts[at:at] = [{'k': 'createZone', 'name': 'EDGEZ', 's': zs, 'e': ze}] + \
                 rng.choice([[], [{'k': 'memzone', 'z': 'EDGEZ'}, {'k': 'data', 'w': 1, 'vals': [('num', 0xE1)]}]])
+    if rng.random() < 0.08:
+        # a zone whose name differs from GLOBAL in letter case only: zone names are case sensitive, so this is an ordinary zone
+        g = [z for z in cfg['preZones'] if z[0] == 'GLOBAL']
+        g0, g1 = (g[0][1], g[0][2]) if g else (0, (1 << cfg['bits']) - 1)
+        nm = rng.choice(['global', 'Global', 'gLOBAL'])
+        zs = g0 + (g1 - g0) // 2 + rng.randint(0, 5)
+        ze = min(g1, zs + rng.randint(8, 30))
+        if rng.random() < 0.5:
+            cfg['preZones'].append((nm, zs, ze))
+            decl = []
+        else:
+            decl = [{'k': 'createZone', 'name': nm, 's': zs, 'e': ze}]
+        use = rng.choice([[{'k': 'memzone', 'z': nm}], [{'k': 'org', 'e': ('num', rng.randint(0, 3)), 'zone': nm}]])
+        at = rng.randint(0, len(stmts))
+        stmts[at:at] = decl + use + [{'k': 'data', 'w': 1, 'vals': [('num', 0x61), ('num', 0x62)]}]
     if rng.random() < 0.25:
         stmts = P.add_dead_blocks(rng, cfg, stmts, n=rng.randint(1, 2))
     gs = min([z[1] for z in cfg['preZones'] if z[0] == 'GLOBAL'] or [0])
